@@ -300,7 +300,8 @@ def describe(cfg):
 def random_flags(rng, kind):
     cfg = dict(kind=kind, shuffle=rng.random() < 0.5, sort=rng.random() < 0.5, bf=rng.random() < 0.5,
                salis=rng.random() < 0.5, suttids=rng.random() < 0.4, tokens_only=True,
-               variant="full", left=0, right=0, rev=False, seed=rng.randrange(1000))
+               variant="full", left=0, right=0, rev=False,
+               seed=rng.choice((0, 0, rng.randrange(1, 1000), 2 ** 31 - 1)))  # 0 is a seed like any other, not "unset"
     if kind == "spect":
         cfg["variant"] = rng.choice(["full", "full", "full", "noali", "noref", "ref2d"])
         cfg["tokens_only"] = cfg["variant"] != "ref2d"
